@@ -1060,6 +1060,32 @@ func ruleConfigEnforcement(p *Prog, r *Out) {
 		}
 		r.check(ok, "unset stream limit gets a positive default", p.pos(dd.Pos()), "MaxConcurrentStreams <= 0 -> positive default", "a non-positive MaxConcurrentStreams no longer gets a positive default: the server advertises 0 (or a negative value converted to a huge one) and refuses, or never limits, streams")
 	}
+	if dd := p.decl("(*ServerConfig).defaults"); dd != nil {
+		ok := false
+		for _, s := range dd.Body.List {
+			if ifs, isIf := s.(*ast.IfStmt); isIf && squash(p.text(ifs.Cond)) == "sc.MaxHeaderListSize==0" && len(ifs.Body.List) == 1 {
+				if as, isAs := ifs.Body.List[0].(*ast.AssignStmt); isAs && p.text(as.Lhs[0]) == "sc.MaxHeaderListSize" {
+					if v, okv := p.intConst(as.Rhs[0]); okv && v > 0 {
+						ok = true
+					}
+				}
+			}
+		}
+		r.check(ok, "unset header-list limit gets a positive default", p.pos(dd.Pos()), "MaxHeaderListSize == 0 -> positive default", "a MaxHeaderListSize of 0 no longer becomes a positive default: zero means no limit to the connection, so a server configured with nothing bounds neither the header list nor the bytes carried between CONTINUATION frames")
+	}
+	{
+		// the window is a positive constant a WINDOW_UPDATE can express, set before it is used
+		wi, ok := 0, false
+		for i, s := range fd.Body.List {
+			if as, isAs := s.(*ast.AssignStmt); isAs && len(as.Lhs) == 1 && squash(p.text(as.Lhs[0])) == "sc.maxWindow" {
+				if v, okv := p.intConst(as.Rhs[0]); okv && v >= 65535 && v <= 1<<31-1 {
+					ok = true
+					wi = i + 1
+				}
+			}
+		}
+		r.check(ok && wi < idx["sc.currentWindow=sc.maxWindow"] && wi < idx["sc.st.SetMaxWindowSize(uint32(sc.maxWindow))"], "the receive window is a constant between 65535 and 2^31-1", pos, "sc.maxWindow = <constant> before it is advertised and accounted", "ServeConn no longer sets the receive window to a constant between 65535 and 2^31-1 before advertising it: a window of zero is advertised and no peer can send a byte of any body")
+	}
 	if sd := p.decl("(*serverConn).Serve"); sd != nil {
 		ok := false
 		for _, s := range sd.Body.List {
@@ -1129,6 +1155,34 @@ func ruleServerConstruction(p *Prog, r *Out) {
 	}
 	if n < 2 {
 		r.bad("Server constructors", "?", fmt.Sprintf("only %d functions building a Server were found", n))
+	}
+	if fd := p.decl("(*Server).ServeConn"); fd != nil {
+		r.fn("(*Server).ServeConn")
+		t := stmtTexts(p, fd.Body.List)
+		hs, sv, de, en := -1, -1, -1, -1
+		for i, x := range t {
+			switch x {
+			case "iferr:=sc.Handshake();err!=nil{returnerr}":
+				hs = i
+			case "returnsc.Serve()":
+				sv = i
+			case "sc.dec.Reset()":
+				de = i
+			case "sc.enc.Reset()":
+				en = i
+			}
+		}
+		r.check(hs >= 0 && sv == hs+1 && sv == len(t)-1, "a failed handshake ends the connection, a good one is served", p.pos(fd.Pos()), "if err := sc.Handshake(); err != nil { return err }; return sc.Serve()", "ServeConn no longer returns the handshake's error and otherwise serves: a connection whose SETTINGS never went out is served, or one that is fine is dropped")
+		lg := -1
+		for i, x := range t {
+			if x == "ifsc.logger==nil{sc.logger=logger}" {
+				lg = i
+			}
+		}
+		r.check(lg >= 0 && lg < hs, "a connection always has a logger", p.pos(fd.Pos()), "if sc.logger == nil { sc.logger = logger } before the handshake", "ServeConn no longer falls back to the package logger when the fasthttp server has none: the report of a panicking handler is then itself a nil dereference, on a goroutine nothing recovers")
+		r.check(de >= 0 && en >= 0 && de < hs && en < hs, "both HPACK contexts start from the protocol's initial state", p.pos(fd.Pos()), "sc.enc.Reset(); sc.dec.Reset() before the handshake", "ServeConn no longer resets the connection's HPACK encoder and decoder before use: a zero HPACK has a dynamic table of size 0 while the peer assumes 4096 octets, so the first indexed reference to a dynamic entry fails the connection")
+	} else {
+		r.undecided("(*Server).ServeConn", "?", "no longer resolves")
 	}
 	if fd := p.decl("ReadPreface"); fd != nil {
 		r.fn("ReadPreface")
